@@ -137,24 +137,39 @@ def policy_of(p):
 
 
 _EAGER = {}
+TERMS = {}  # main process: term hash -> Coq term
+_SENT = set()
+_LINES = set()
 
 
 def run_one(job):
-    """job = (desc, uses, policy dict) -> dict(term, code_hint, steps, lines, ...)"""
+    """job = (desc, uses, policy dict) -> dict(term hash, term (first time only), steps, new lines, ...)"""
+    import hashlib
     import c19_impl as I
     desc, uses, pol = job
     st = I.setup()
     intern = I.Interner()
     key = json.dumps([desc, uses], sort_keys=True)
-    out_e, eager, metas = I.run_eager(desc, uses, intern)
+    if key in _EAGER:
+        out_e, eager, metas, saved = _EAGER[key]
+        intern.d = dict(saved)
+    else:
+        out_e, eager, metas = I.run_eager(desc, uses, intern)
+        if len(_EAGER) > 64:
+            _EAGER.clear()
+        _EAGER[key] = (out_e, eager, metas, dict(intern.d))
     r, out_l, lazy, k = I.run_lazy(desc, uses, policy_of(pol), intern)
     events = I.extract(r["log"], k, st["scm"].__file__)
     term = c_case(desc, uses, events, eager, lazy, out_e, out_l, metas)
-    lines = sorted({(os.path.basename(e[2][0]), e[2][1]) for e in r["log"] if e[1] == "line"})
-    return {"term": term, "steps": r["steps"], "deadlock": r["deadlock"], "stuck": r["stuck"],
-            "overrun": r["overrun"], "same": (eager == lazy and out_e == out_l),
-            "eager_ok": all(o[0] == 1 for o in out_e), "lines": lines, "nevents": len(events),
-            "outs": [o[0] for o in out_l], "key": key,
+    h = hashlib.sha1(term.encode()).hexdigest()[:20]
+    first = h not in _SENT
+    _SENT.add(h)
+    lines = {(os.path.basename(e[2][0]), e[2][1]) for e in r["log"] if e[1] == "line"} - _LINES
+    _LINES.update(lines)
+    return {"h": h, "term": term if first else None, "steps": r["steps"], "deadlock": r["deadlock"],
+            "stuck": r["stuck"], "overrun": r["overrun"], "same": (eager == lazy and out_e == out_l),
+            "eager_ok": all(o[0] == 1 for o in out_e), "lines": sorted(lines), "nevents": len(events),
+            "outs": [o[0] for o in out_l], "key": hashlib.sha1(key.encode()).hexdigest()[:12],
             "preempted": sum(1 for a, b in zip(r["chosen"], r["chosen"][1:]) if a != b)}
 
 
@@ -171,7 +186,11 @@ def run_jobs(jobs, pool):
     if not jobs:
         return []
     chunk = max(1, min(64, len(jobs) // (JOBS * 4) or 1))
-    return list(pool.map(run_one, jobs, chunksize=chunk))
+    res = list(pool.map(run_one, jobs, chunksize=chunk))
+    for r in res:
+        if r["term"] is not None:
+            TERMS[r["h"]] = r["term"]
+    return res
 
 
 # ------------------------------------------------------------------ schedules
@@ -197,7 +216,7 @@ def schedules_for(rng, desc, uses, pool, tier, budget):
                 for g in range(n):
                     if g == f:
                         continue
-                    for k2 in range(k1 + 1, 2 * total + 1):
+                    for k2 in range(k1 + 1, k1 + total + 1):
                         for h in range(n):
                             if h != g:
                                 two_all.append({"kind": "preempt", "first": f, "switch": [[k1, g], [k2, h]]})
@@ -217,7 +236,7 @@ def schedules_for(rng, desc, uses, pool, tier, budget):
             h = rng.choice([x for x in range(n) if x != g])
             two.append({"kind": "preempt", "first": f, "switch": [[k1, g], [k2, h]]})
     prio = []
-    for _ in range(max(4, (budget - len(one) - len(two)) if not exhaustive2 else budget // 10)):
+    for _ in range(min(4000, max(4, (budget - len(one) - len(two)) if not exhaustive2 else budget // 10))):
         d = rng.randint(2, 6)
         prio.append({"kind": "priority", "prios": rng.sample(range(10, 10 + n), n),
                      "changes": sorted(rng.sample(range(1, n * total + 1), min(d, n * total)))})
@@ -227,11 +246,11 @@ def schedules_for(rng, desc, uses, pool, tier, budget):
 
 # ------------------------------------------------------------------ evaluation in Coq
 def evaluate(results, tag="c"):
-    """dedupe identical terms; returns {index: code} for non-zero codes, logs"""
+    """identical terms are evaluated once; returns {index: code} for non-zero codes, logs"""
     uniq, where = {}, []
     for r in results:
-        where.append(uniq.setdefault(r["term"], len(uniq)))
-    terms = list(uniq)
+        where.append(uniq.setdefault(r["h"], len(uniq)))
+    terms = [TERMS[h] for h in uniq]
     bad, logs = coq_eval("C19", PRELUDE, "check_case", terms, shard=120, tag=tag, case_type="case")
     codes = dict(bad)
     return {i: codes[w] for i, w in enumerate(where) if w in codes}, logs, len(terms)
@@ -341,13 +360,17 @@ def main2(tier, replay, pool):
     deadline = t0 + (150 if quick else 900)
     truncated = []
 
-    def submit(js, ms, label):
-        if time.time() > deadline:
-            truncated.append(label)
-            return
-        results.extend(run_jobs(js, pool))
-        jobs.extend(js)
-        meta.extend(ms)
+    def submit(js, ms, label, until=None):
+        """run in chunks; stop (and say so) when the deadline has passed"""
+        until = until or deadline
+        for a in range(0, len(js), 8000):
+            if time.time() > until:
+                truncated.append(f"{label}: {len(js) - a} of {len(js)} schedules not run")
+                return False
+            results.extend(run_jobs(js[a:a + 8000], pool))
+            jobs.extend(js[a:a + 8000])
+            meta.extend(ms[a:a + 8000])
+        return True
 
     # 1. sequential trigger independence: every trigger kind x every target, one thread
     n_seq = 25 if quick else 150
@@ -365,10 +388,23 @@ def main2(tier, replay, pool):
                 js.append((d, [[kind, 0], [rng.choice(USE_KINDS), k - 1]], {"kind": "preempt", "first": 0, "switch": []}))
                 ms.append(("seq-parent-first", 2))
     submit(js, ms, "sequential")
-    # 2. concurrent: classes x uses x schedules
-    n_cfg = 12 if quick else 60
-    budget = 1200 if quick else 12000
+    # 2. thorough: every schedule with <= 2 pre-emptions for a small configuration (as far as
+    #    the time allows; `exhaustive2` in the evidence says whether the enumeration completed)
     sched_info = []
+    if not quick:
+        d = {"classes": [{"attrs": [[0, "attr", 2, False, True, False, "int"]], "key": None, "frozen": False, "new": False}],
+             "sub": None}
+        u = [["meta", 0], ["fields", 0]]
+        pols, info = schedules_for(rng, d, u, pool, tier, 10 ** 9)
+        head, rest = pols[:2 + info["one"]], pols[2 + info["one"]:]
+        rng.shuffle(rest)
+        info.update(threads=2, classes=1, uses=u, small_scope=True)
+        done = submit([(d, u, p) for p in head + rest], [("conc-small", 2)] * len(pols), "small scope", until=t0 + 400)
+        info["exhaustive2"] = bool(done and info["exhaustive2"])
+        sched_info.append(info)
+    # 3. concurrent: classes x uses x schedules
+    n_cfg = 16 if quick else 60
+    budget = 1800 if quick else 12000
     for ci in range(n_cfg):
         d = gen_valid(rng, tier)
         nth = 2 if (quick or ci % 3) else 3
@@ -384,19 +420,6 @@ def main2(tier, replay, pool):
         info.update(threads=nth, classes=len(d["classes"]), uses=u)
         sched_info.append(info)
         submit([(d, u, p) for p in pols], [("conc", nth)] * len(pols), f"configuration {ci}")
-    # 3. thorough: every schedule with <= 2 pre-emptions for small configurations
-    if not quick:
-        for nat in (1, 2):
-            d = {"classes": [{"attrs": [[0, "attr", 2, False, True, False, "int"]] + ([[1, "field", 1, True, False, True, "int"]] if nat == 2 else []),
-                              "key": None, "frozen": False, "new": False}], "sub": None}
-            for u in ([["meta", 0], ["fields", 0]], [["inst", 0], ["meta", 0]]):
-                if time.time() > deadline:
-                    truncated.append(f"small scope {nat} {u}")
-                    continue
-                pols, info = schedules_for(rng, d, u, pool, tier, 10 ** 9 if nat == 1 else 60000)
-                info.update(threads=2, classes=1, uses=u, small_scope=True)
-                sched_info.append(info)
-                submit([(d, u, p) for p in pols], [("conc-small", 2)] * len(pols), f"small scope {nat} {u}")
     t_run = time.time() - t0
     # generated uses must be valid sequentially (otherwise the case says nothing)
     invalid = [i for i, r in enumerate(results) if not r["eager_ok"]]
